@@ -86,11 +86,11 @@ def run_path(path, value, lang):
                      "t0": {"action": "core.noop"},        # a terminal task that sees the initial context only
                      "t1": {"action": "core.echo", "input": {"p": ref(lang, form, "v")},
                             "next": [{"publish": [{"q": ("<% result() %>" if lang == "yaql" else "{{ result() }}")},
-                                                  {"d": {"more": 2}},
+                                                  {"d": {"more": 2}}, {"e": {"first": 1}},
                                                   {"w": ("<% result() %>" if lang == "yaql" else "{{ result() }}")}],
                                       "do": ["t2", "t3"]}]},
                      "t2": {"action": "core.echo", "input": {"p": ref(lang, form, "q"), "pw": ref(lang, form, "w")},
-                            "next": [{"do": ["t4"]}]},
+                            "next": [{"publish": [{"d": {"third": 3}}, {"e": {"second": 2}}], "do": ["t4"]}]},
                      "t3": {"action": "core.echo", "input": {"p": ref(lang, form, "d")}, "next": [{"do": ["t4"]}]},
                      "t4": {"join": "all", "action": "core.echo", "input": {"p": ref(lang, form, "q")}}},
                  "output": [{"o": ref(lang, form, "q")}, {"od": ref(lang, form, "d")}, {"ow": ref(lang, form, "w")}]}
@@ -120,8 +120,11 @@ def run_path(path, value, lang):
         walk(obj, True)
         hidden.append([where, sorted(set(bad))])
 
+    snaps = []
+
     def ctx0():
         ctx0s.append(tag(c.workflow_state.contexts[0]) if c.workflow_state.contexts else "none")
+        snaps.append([tag(cx) for cx in c.workflow_state.contexts])
 
     c.request_workflow_status(statuses.RUNNING)
     ctx0()
@@ -194,7 +197,8 @@ def run_path(path, value, lang):
             priv.append([name, -1, "listed" if isinstance(v, dict) and any(k.startswith("__") for k in v) else "rejected"])
         except Exception:
             priv.append([name, -1, "rejected"])
-    return {"expect": tag(expect), "stages": stages, "hidden": hidden, "pure": pure, "ctx0": ctx0s,
+    ctx0()
+    return {"expect": tag(expect), "stages": stages, "hidden": hidden, "pure": pure, "ctx0": ctx0s, "snaps": snaps,
             "status": c.get_workflow_status(), "priv": priv, "npersist": npers[0],
             "errors": [e.get("message", "")[:80] for e in c.errors]}
 
@@ -206,7 +210,7 @@ def _job(job):
     except Exception as e:
         import traceback
         fin = {"expect": tag(value), "stages": [["exception", type(e).__name__ + ": " + str(e)[:100]]], "hidden": [], "pure": [],
-               "ctx0": [], "status": "exception", "priv": [], "npersist": 0, "errors": [traceback.format_exc()[-300:]]}
+               "ctx0": [], "snaps": [], "status": "exception", "priv": [], "npersist": 0, "errors": [traceback.format_exc()[-300:]]}
     return {"kind": "datapath", "def": {"name": "c16"}, "case": dict(path, lang=lang, vid=vid),
             "members": [{"role": "run", "fin": fin, "sched": []}], "replay": {"path": path, "value": repr(value), "lang": lang}}
 
